@@ -56,6 +56,9 @@ def generate(rng, tier):
             if rng.random() < 0.3: ops.append("e:" + hx(rbytes(rng, rng.randint(0, 8))))
         ops.append("pr")
         cs.append(Case("hdr w c %s %s" % (K.hex(), " ".join(ops)), "clone-mid-large-header", pyhdr.expected_line("w", "c", K, ops), dict(nb=3)))
+    # both directions mixed through every entry point with split / clone / unsplit in between
+    import hdr_mix
+    cs += hdr_mix.cases(rng, Case, [("v", "s"), ("t", "s"), ("w", "s"), ("w", "c")], 60 if tier == "quick" else 2000, 100, special_key=special_key)
     # unsplit / is_pair_of over key pairs
     K = rbytes(rng, 40)
     def pw(K2, kind):
